@@ -28,6 +28,11 @@ namespace vc
     {
         return g_leaves[tag];
     }
+    static vleaf_np* g_np[3] = {nullptr, nullptr, nullptr};
+    vleaf_np*        np_leaf_by_tag(int tag)
+    {
+        return g_np[tag];
+    }
 
     void vleaf::log(const char* op, std::size_t n, std::size_t sz, std::size_t al, const char* r, const void* p)
     {
@@ -135,7 +140,11 @@ namespace
         g_leaves[0] = &la;
         g_leaves[1] = &lb;
         g_leaves[2] = &lc;
-        std::string name = x.str("cont") + ":" + x.str("elem");
+        vleaf_np na(0), nb(1), nc(2);
+        g_np[0] = &na;
+        g_np[1] = &nb;
+        g_np[2] = &nc;
+        std::string name = x.str("cont") + ":" + x.str("elem") + (x.num("np") ? ":np" : "");
         if (x.str("cont") == "pool")
         {
             int n = static_cast<int>(x.num("n", 40));
@@ -158,7 +167,7 @@ namespace
         {
             // type-erased std_allocator: equality must still mean "refers to the same allocator object"
             fm::any_std_allocator<int> a(la), b(lb), c(la);
-            Ev("cbox").s("name", name).b("ok", true);
+            Ev("cbox").s("name", name).b("ok", true).i("prop", 7);
             Ev("ceq").i("a", 0).i("c", 1).i("eq", a == b ? 1 : 0).i("ba", 0).i("bc", 1);
             Ev("ceq").i("a", 0).i("c", 2).i("eq", a == c ? 1 : 0).i("ba", 0).i("bc", 0);
             Ev("ceq").i("a", 1).i("c", 2).i("eq", b == c ? 1 : 0).i("ba", 1).i("bc", 0);
@@ -166,11 +175,14 @@ namespace
             return;
         }
         auto it = registry().find(name);
-        Ev("cbox").s("name", name).b("ok", it != registry().end());
         if (it == registry().end())
+        {
+            Ev("cbox").s("name", name).b("ok", false).i("prop", 0);
             return;
+        }
         std::unique_ptr<IBoxSet> box(it->second());
         IBoxSet&                 b = *box;
+        Ev("cbox").s("name", name).b("ok", true).i("prop", b.propagation());
         int                      v = 0;
         b.make(0, 0);
         b.make(1, 1);
@@ -245,8 +257,9 @@ namespace
         }
         std::size_t constant = b.node_constant();
         box.reset();
-        std::size_t mx = std::max(la.max_node_req, std::max(lb.max_node_req, lc.max_node_req));
-        Ev("cend").u("leaf_live", la.live.size() + lb.live.size() + lc.live.size()).u("max_node_req", mx).u(
+        std::size_t mx = std::max(std::max(la.max_node_req, std::max(lb.max_node_req, lc.max_node_req)),
+                                  std::max(na.max_node_req, std::max(nb.max_node_req, nc.max_node_req)));
+        Ev("cend").u("leaf_live", la.live.size() + lb.live.size() + lc.live.size() + na.live.size() + nb.live.size() + nc.live.size()).u("max_node_req", mx).u(
             "constant", constant).s("name", name);
     }
 } // namespace
